@@ -1,7 +1,7 @@
 SPECIFICATION Spec
 CONSTANT Ns = {2}
 CONSTANT AllGates = {}
-CONSTANT DeepGates = {"H", "CNOT", "RX", "PHASE"}
+CONSTANT DeepGates = {"H", "CNOT", "RX"}
 CONSTANT ShallowDepth = 0
 CONSTANT MaxDepth = 1
 CONSTANT MaxProg = 2
